@@ -32,26 +32,43 @@ with its inverse and log-determinant.  `Decoupled c` is `A_kᵀ(AAᵀ)⁻¹A_k =
    `returned value = ∫ integrand·p  ≤  ∫ ln p(y|x)·p` is proved COMPLETELY, every step:
    * identification of the integrand in the model: `expKFunc_eq`, `coshKFunc_eq` (`k_func`),
      `expLbFactor_evalLn`, `coshLbFactor_evalLn`, `expPlusFactor_evalLn`, `expMinusFactor_evalLn`
-     (the factors `_lower_bound_integrals` multiplies `p_x` with), `baseGetOmegaStar_eq`
-     (`ω* = ω†`: the `while_loop` never runs as coded);
+     (the factors `_lower_bound_integrals` multiplies `p_x` with);
+   * the two variational parameters: `get_lb_log_det` uses `ω† = √E[h²]` (`omegaDag`); the
+     heteroscedastic term uses `ω*` (`omegaStar`), the result of the fixed-point `while_loop` of
+     `_get_omega_star`, started at `(ω†, ω† + 1, 0)` — it RUNS (`baseGetOmegaStar_first_step`) for up to
+     100 steps `ω ↦ √(quartic(ω)/quadratic(ω))`.  `ω*` is treated as an opaque iterate: everything needed
+     of it is a LOOP INVARIANT (`omegaWhile_invariant`, `getOmegaStar_invariant`; no statement about the
+     number of iterations or about convergence): `omegaStar_exp_cases`, `omegaStar_coshM1_cases`
+     (`ω*_k ≠ 0`, or `h_k(x)·ã_kᵀ(y−Mx−b) = 0` for almost every `x` — the only way the real-number model
+     of `√(quartic/quadratic)` returns `0`, through a zero moment; the floating-point code returns `0` or
+     NaN there), proved from the integral form of both moments (`exp_het_integral`,
+     `exp_het4_integral`, `cosh_het_integral`, `cosh_het4_integral`; `exp_update_cases`,
+     `cosh_update_cases` hold for EVERY old `ω`);
    * pointwise validity for EVERY non-zero value of the variational parameters (no fixed point
      needed): `expK_ge`, `expLb_le`, `coshK_ge`, `coshLb_le` (from `GT/Math/Bounds.lean`),
-     assembled in `C17_pointwise_exp`, `C17_pointwise_coshM1` (+ `_density` versions);
+     assembled in `C17_pointwise_exp`, `C17_pointwise_coshM1` (+ `_density` versions); the sharpened
+     `expLb_mul_le`, `coshLb_mul_le`, `C17_pointwise_exp_or`, `C17_pointwise_coshM1_or` also cover
+     `ω*_k = 0` at points with `h_k·g_k = 0` (there unit `k` contributes equally to both sides);
    * returned value = Lebesgue integral of the integrand against `p_x` (through C01, C03, C04):
      `exp_het_integral`, `cosh_het_integral`, `exp_kfunc_integral`, `cosh_kfunc_integral`,
-     `homo_integral`, `C17_exp_value_eq_integral`, `C17_coshM1_value_eq_integral` — all shapes;
+     `homo_integral`, `C17_exp_value_eq_integral`, `C17_coshM1_value_eq_integral` — all shapes, at
+     `(ω*, ω†)`;
    * monotonicity of the integral INCLUDING integrability of the true integrand
-     (`expectation_mono`): `C17_lower_bound_exp_coded`, `C17_lower_bound_coshM1_coded` compare with
-     the log-density built from the RETURNED precision / log-determinant (all shapes, also
-     `Da > Dy`); under `Decoupled c` this is the true `E[ln p(y|x)]`:
+     (`expectation_mono_ae`, `expectation_mono`): `C17_lower_bound_exp_coded`,
+     `C17_lower_bound_coshM1_coded` compare with the log-density built from the RETURNED precision /
+     log-determinant (all shapes, also `Da > Dy`); under `Decoupled c` this is the true `E[ln p(y|x)]`:
      `C17_lower_bound_exp`, `C17_lower_bound_coshM1`, `…_model` (right-hand side written with
      `condition_on_x(x).evaluate_ln(y)`), `…'` (hypothesis `ω† ≠ 0` discharged by
-     `omegaDag_ne_zero`: no unit has `w = 0` and `w0 = 0`).
+     `omegaDag_ne_zero`: no unit has `w = 0` and `w0 = 0`).  The ONLY hypothesis on the variational
+     parameters is `ω† ≠ 0`, as before the loop was repaired.
    Hypotheses on `p_x`: `p.toMeasure.Inv` and `∫ p = 1`; both hold for every constructed
    `GaussianPDF(Sigma, mu)` (`exists_px`).
-5. **Tight at zero weights** (`C17_tight_at_zero_weights_exp`, `_coshM1` pointwise;
+5. **Tight at zero weights** (`C17_tight_at_zero_weights_exp`, `_coshM1` pointwise, `…_or` sharpened;
    `C17_tight_at_zero_weights_exp_model`, `_coshM1_model`, `C17_tight_at_zero_weights`): with zero
-   input weights `ω† = |w0|` is the tangent point and the returned value EQUALS the expectation.
+   input weights `ω† = |w0|` is the tangent point AND a fixed point of the iteration
+   (`exp_update_zero_weights`, `cosh_update_zero_weights`: `quartic = w0²·quadratic`), so `ω*² = w0²`
+   (`omegaStar_exp_zero_weights`, `omegaStar_coshM1_zero_weights`; or the unit's projected residual
+   vanishes almost everywhere) and the returned value EQUALS the expectation.
 
 ## What is NOT proved
 
@@ -62,7 +79,8 @@ with its inverse and log-determinant.  `Decoupled c` is `A_kᵀ(AAᵀ)⁻¹A_k =
 * the asymptotic clause "the gap vanishes quadratically in the weight scale" (only exact tightness
   at zero weights);
 * floating-point effects; for a unit with `w = 0` and `w0 = 0` the library divides by zero
-  (`ω† = 0`), a case excluded by hypothesis.
+  (`ω† = 0`), a case excluded by hypothesis; convergence of the fixed-point iteration (not needed:
+  the bound holds for every iterate).
 -/
 namespace GT.Props.C17
 open GT Matrix
@@ -571,6 +589,31 @@ theorem coshLb_eq_of_sq (ω h : ℝ) (hh : h ^ 2 = ω ^ 2) :
     rw [show h * h = h ^ 2 by ring, show ω * ω = ω ^ 2 by ring, hh]; ring
   rw [e, this, show 1 + (cosh h - 1) = cosh h by ring, div_eq_mul_one_div (cosh h - 1)]
 
+/-- the bound of the heteroscedastic term in the form the integral needs it (multiplied by the squared
+projected residual `g²`): it holds for `ω ≠ 0` and ALSO for `ω = 0` (where the real-number model has
+`tanh(ω/2)/ω = 0`) at every point with `h·g = 0` -/
+theorem expLb_mul_le (ω h g : ℝ) (hcase : ω ≠ 0 ∨ h * g = 0) :
+    exp (expLbLn ω h) * g ^ 2 ≤ exp h / (1 + exp h) * g ^ 2 := by
+  by_cases hω : ω = 0
+  · rcases hcase with h1 | h1
+    · exact absurd hω h1
+    · rcases mul_eq_zero.1 h1 with h0 | g0
+      · subst hω; subst h0
+        exact (congrArg (· * g ^ 2) (expLb_eq_of_sq 0 0 rfl)).le
+      · rw [g0]; simp
+  · exact mul_le_mul_of_nonneg_right (expLb_le ω h hω) (sq_nonneg g)
+
+theorem coshLb_mul_le (ω h g : ℝ) (hcase : ω ≠ 0 ∨ h * g = 0) :
+    (cosh h - 1) * exp (coshLbLn ω h) * g ^ 2 ≤ (cosh h - 1) / (1 + (cosh h - 1)) * g ^ 2 := by
+  by_cases hω : ω = 0
+  · rcases hcase with h1 | h1
+    · exact absurd hω h1
+    · rcases mul_eq_zero.1 h1 with h0 | g0
+      · subst hω; subst h0
+        exact (congrArg (· * g ^ 2) (coshLb_eq_of_sq 0 0 rfl)).le
+      · rw [g0]; simp
+  · exact mul_le_mul_of_nonneg_right (coshLb_le ω h hω) (sq_nonneg g)
+
 end pointwise
 
 section pointwiseDensity
@@ -621,6 +664,24 @@ theorem lnForm_mono (c : HeteroB Dy Dx Da Dk ℝ) (y : Fin Dy → ℝ) (x : Fin 
   have h2 : ∑ k, ℓ' k ≤ ∑ k, ℓ k := Finset.sum_le_sum fun k _ => hℓ k
   linarith
 
+/-- monotonicity of the shape when `G` is only compared where the projected residual is non-zero -/
+theorem lnForm_mono' (c : HeteroB Dy Dx Da Dk ℝ) (y : Fin Dy → ℝ) (x : Fin Dx → ℝ)
+    {G G' ℓ ℓ' : Fin Dk → ℝ} (hG : ∀ k, G k * proj c y x k ^ 2 ≤ G' k * proj c y x k ^ 2)
+    (hℓ : ∀ k, ℓ' k ≤ ℓ k) :
+    lnForm c y x G ℓ ≤ lnForm c y x G' ℓ' := by
+  unfold lnForm
+  have h1 : ∑ k, G k * proj c y x k ^ 2 ≤ ∑ k, G' k * proj c y x k ^ 2 :=
+    Finset.sum_le_sum fun k _ => hG k
+  have h2 : ∑ k, ℓ' k ≤ ∑ k, ℓ k := Finset.sum_le_sum fun k _ => hℓ k
+  linarith
+
+theorem lnForm_congr' (c : HeteroB Dy Dx Da Dk ℝ) (y : Fin Dy → ℝ) (x : Fin Dx → ℝ)
+    {G G' ℓ ℓ' : Fin Dk → ℝ} (hG : ∀ k, G k * proj c y x k ^ 2 = G' k * proj c y x k ^ 2)
+    (hℓ : ∀ k, ℓ k = ℓ' k) :
+    lnForm c y x G ℓ = lnForm c y x G' ℓ' :=
+  le_antisymm (lnForm_mono' c y x (fun k => (hG k).le) (fun k => (hℓ k).ge))
+    (lnForm_mono' c y x (fun k => (hG k).ge) (fun k => (hℓ k).le))
+
 /-- integrand of the exp-link bound for variational parameters `ωs` (heteroscedastic term) and
 `ωd` (log-determinant) -/
 noncomputable def expLbIntegrand (c : HeteroB Dy Dx Da Dk ℝ) (y : Fin Dy → ℝ) (ωs ωd : Fin Dk → ℝ)
@@ -665,6 +726,38 @@ theorem C17_pointwise_coshM1 (c : HeteroB Dy Dx Da Dk ℝ) (y : Fin Dy → ℝ) 
     simp only [dval, hval_eq_hW, coshM1Ops, transc_cosh]
     exact coshK_ge _ _ (hd k)
 
+/-- **C17 (pointwise validity, exp link; sharpened)**: the parameter of the heteroscedastic term of
+unit `k` may also be `0` (the value the real-number model of the fixed-point iteration returns when
+a moment ratio is `0/0`) at points where `h_k(x)·ã_kᵀ(y − Mx − b) = 0`: there the unit contributes
+the same to both sides. -/
+theorem C17_pointwise_exp_or (c : HeteroB Dy Dx Da Dk ℝ) (y : Fin Dy → ℝ) (ωs ωd : Fin Dk → ℝ)
+    (x : Fin Dx → ℝ) (hs : ∀ k, ωs k ≠ 0 ∨ hW (c.W k) x * proj c y x k = 0) (hd : ∀ k, ωd k ≠ 0) :
+    expLbIntegrand c y ωs ωd x ≤
+      normalLn (toM (c.M 0) *ᵥ x + toV (c.b 0)) (precAt c (dval expOps c x)) (lnDetAt c (dval expOps c x)) y := by
+  rw [normalLn_coded]
+  apply lnForm_mono'
+  · intro k
+    simp only [dval, hval_eq_hW, expOps, transc_exp]
+    exact expLb_mul_le _ _ _ (hs k)
+  · intro k
+    simp only [dval, hval_eq_hW, expOps, transc_exp]
+    exact expK_ge _ _ (hd k)
+
+/-- **C17 (pointwise validity, cosh−1 link; sharpened)** -/
+theorem C17_pointwise_coshM1_or (c : HeteroB Dy Dx Da Dk ℝ) (y : Fin Dy → ℝ) (ωs ωd : Fin Dk → ℝ)
+    (x : Fin Dx → ℝ) (hs : ∀ k, ωs k ≠ 0 ∨ hW (c.W k) x * proj c y x k = 0) (hd : ∀ k, ωd k ≠ 0) :
+    coshLbIntegrand c y ωs ωd x ≤
+      normalLn (toM (c.M 0) *ᵥ x + toV (c.b 0)) (precAt c (dval coshM1Ops c x))
+        (lnDetAt c (dval coshM1Ops c x)) y := by
+  rw [normalLn_coded]
+  apply lnForm_mono'
+  · intro k
+    simp only [dval, hval_eq_hW, coshM1Ops, transc_cosh]
+    exact coshLb_mul_le _ _ _ (hs k)
+  · intro k
+    simp only [dval, hval_eq_hW, coshM1Ops, transc_cosh]
+    exact coshK_ge _ _ (hd k)
+
 /-- in the decoupled case the right-hand side is the true `ln p(y|x)` returned by
 `condition_on_x` -/
 theorem C17_pointwise_exp_density {be : Backend ℝ} (hbe : be.Spec) (c : HeteroB Dy Dx Da Dk ℝ)
@@ -687,7 +780,7 @@ theorem C17_pointwise_coshM1_density {be : Backend ℝ} (hbe : be.Spec) (c : Het
 
 /-- **C17 (tight at zero weights, exp link)**: if the input weights of all noise units vanish
 (`h_k ≡ w0_k`, the noise is constant in `x`) and the variational parameters sit at the fixed point
-`ω_k² = w0_k²` (`ω† = √E[h²] = |w0_k|`, and `ω* = ω†` as coded), the integrand of the bound EQUALS
+`ω_k² = w0_k²` (`ω† = √E[h²] = |w0_k|`, a fixed point of the iteration for `ω*`), the integrand of the bound EQUALS
 the log-density — so the bound has zero gap. -/
 theorem C17_tight_at_zero_weights_exp (c : HeteroB Dy Dx Da Dk ℝ) (y : Fin Dy → ℝ) (ωs ωd : Fin Dk → ℝ)
     (hw : ∀ k j, wTail (c.W k) j = 0) (hs : ∀ k, ωs k ^ 2 = wHead (c.W k) ^ 2)
@@ -722,6 +815,49 @@ theorem C17_tight_at_zero_weights_coshM1 (c : HeteroB Dy Dx Da Dk ℝ) (y : Fin 
     simp only [dval, hval_eq_hW, coshM1Ops, transc_cosh, hh]
     exact coshLb_eq_of_sq _ _ (hs k).symm
   · funext k
+    simp only [dval, hval_eq_hW, coshM1Ops, transc_cosh, hh]
+    exact (coshK_eq_of_sq _ _ (hd k).symm).symm
+
+/-- **tight at zero weights, sharpened**: a unit whose parameter `ωs k` is NOT at the tangent point
+still contributes exactly if its projected residual vanishes at `x` -/
+theorem C17_tight_at_zero_weights_exp_or (c : HeteroB Dy Dx Da Dk ℝ) (y : Fin Dy → ℝ) (ωs ωd : Fin Dk → ℝ)
+    (hw : ∀ k j, wTail (c.W k) j = 0) (x : Fin Dx → ℝ)
+    (hs : ∀ k, ωs k ^ 2 = wHead (c.W k) ^ 2 ∨ proj c y x k = 0)
+    (hd : ∀ k, ωd k ^ 2 = wHead (c.W k) ^ 2) :
+    expLbIntegrand c y ωs ωd x =
+      normalLn (toM (c.M 0) *ᵥ x + toV (c.b 0)) (precAt c (dval expOps c x)) (lnDetAt c (dval expOps c x)) y := by
+  have hh : ∀ k, hW (c.W k) x = wHead (c.W k) := by
+    intro k; simp [hW, dotProduct, hw k]
+  rw [normalLn_coded]
+  unfold expLbIntegrand
+  apply lnForm_congr'
+  · intro k
+    simp only [dval, hval_eq_hW, expOps, transc_exp, hh]
+    rcases hs k with h1 | h1
+    · rw [expLb_eq_of_sq _ _ h1.symm]
+    · rw [h1]; simp
+  · intro k
+    simp only [dval, hval_eq_hW, expOps, transc_exp, hh]
+    exact (expK_eq_of_sq _ _ (hd k).symm).symm
+
+theorem C17_tight_at_zero_weights_coshM1_or (c : HeteroB Dy Dx Da Dk ℝ) (y : Fin Dy → ℝ)
+    (ωs ωd : Fin Dk → ℝ) (hw : ∀ k j, wTail (c.W k) j = 0) (x : Fin Dx → ℝ)
+    (hs : ∀ k, ωs k ^ 2 = wHead (c.W k) ^ 2 ∨ (cosh (wHead (c.W k)) - 1) * proj c y x k ^ 2 = 0)
+    (hd : ∀ k, ωd k ^ 2 = wHead (c.W k) ^ 2) :
+    coshLbIntegrand c y ωs ωd x =
+      normalLn (toM (c.M 0) *ᵥ x + toV (c.b 0)) (precAt c (dval coshM1Ops c x))
+        (lnDetAt c (dval coshM1Ops c x)) y := by
+  have hh : ∀ k, hW (c.W k) x = wHead (c.W k) := by
+    intro k; simp [hW, dotProduct, hw k]
+  rw [normalLn_coded]
+  unfold coshLbIntegrand
+  apply lnForm_congr'
+  · intro k
+    simp only [dval, hval_eq_hW, coshM1Ops, transc_cosh, hh]
+    rcases hs k with h1 | h1
+    · rw [coshLb_eq_of_sq _ _ h1.symm]
+    · rw [mul_right_comm, h1, div_mul_eq_mul_div, h1]; simp
+  · intro k
     simp only [dval, hval_eq_hW, coshM1Ops, transc_cosh, hh]
     exact (coshK_eq_of_sq _ _ (hd k).symm).symm
 
@@ -789,6 +925,26 @@ theorem quadInner_integral (f g : AffForm R K D ℝ) (r : Fin R) :
   refine ⟨?_, C03_quad_inner hbe hm f g r⟩
   simp_rw [Finset.sum_mul]
   exact integrable_finsetSum _ fun i _ => (mom2_aux hm hv f g r i i).1
+
+/-- key `"(Ax+a)'(Bx+b)(Cx+c)'(Dx+d)"` with its integrability -/
+theorem quarticInner_integral {L : Nat} (f g : AffForm R K D ℝ) (h e : AffForm R L D ℝ) (r : Fin R) :
+    Integrable (fun x : Fin D → ℝ => ((∑ i, affFn f r i x * affFn g r i x)
+        * ∑ l, affFn h r l x * affFn e r l x) * Real.exp (m.evalLn r (ofV x))) ∧
+    ((m.intView be).2.integrateQuarticInner f g h e) r
+      = ∫ x : Fin D → ℝ, ((∑ i, affFn f r i x * affFn g r i x)
+        * ∑ l, affFn h r l x * affFn e r l x) * Real.exp (m.evalLn r (ofV x)) := by
+  have hv := intView_spec hbe hm
+  refine ⟨?_, C03_quartic_inner hbe hm f g h e r⟩
+  have e' : ∀ x : Fin D → ℝ, ((∑ i, affFn f r i x * affFn g r i x)
+        * ∑ l, affFn h r l x * affFn e r l x) * Real.exp (m.evalLn r (ofV x))
+      = ∑ i, ∑ l, affFn f r i x * affFn g r i x * affFn h r l x * affFn e r l x
+          * Real.exp (m.evalLn r (ofV x)) := by
+    intro x
+    rw [Finset.sum_mul_sum]
+    simp only [Finset.sum_mul, mul_assoc]
+  simp_rw [e']
+  exact integrable_finsetSum _ fun i _ => integrable_finsetSum _ fun l _ =>
+    (mom4_aux hm hv f g h e r i i l l).1
 
 theorem linear_integral (f : AffForm R K D ℝ) (r : Fin R) (i : Fin K) :
     Integrable (fun x : Fin D → ℝ => affFn f r i x * Real.exp (m.evalLn r (ofV x))) ∧
@@ -884,6 +1040,13 @@ theorem expLbi_eq (be : Backend ℝ) (c : HeteroB Dy Dx Da Dk ℝ) (p : PdfV R D
       ((p.toMeasure.hadamard be (expLbFactor Wi ω) true).intView be).2.integrateQuadInner
         (residualForm c y ai) (residualForm c y ai) := rfl
 
+theorem expLbi_true (be : Backend ℝ) (c : HeteroB Dy Dx Da Dk ℝ) (p : PdfV R Dx ℝ) (y : Arr R (Vec Dy ℝ))
+    (Wi : Vec (Dx + 1) ℝ) (ai : Vec Dy ℝ) (ω : Arr R ℝ) :
+    expLowerBoundIntegrals be c p y Wi ai ω true =
+      ((expLowerBoundIntegrals be c p y Wi ai ω false).1,
+        some (((p.toMeasure.hadamard be (expLbFactor Wi ω) true).intView be).2.integrateQuarticInner
+          (hForm Wi : AffForm R 1 Dx ℝ) (hForm Wi) (residualForm c y ai) (residualForm c y ai))) := rfl
+
 /-- the factor evaluates to the Gaussian-form lower bound of the logistic function of `h(x)` -/
 theorem expLbFactor_evalLn (Wi : Vec (Dx + 1) ℝ) (ω : Arr R ℝ) (r : Fin R) (x : Fin Dx → ℝ) :
     (expLbFactor Wi ω).evalLn r (ofV x) = expLbLn (ω r) (hW Wi x) := by
@@ -949,9 +1112,72 @@ theorem exp_het_integral (c : HeteroB Dy Dx Da Dk ℝ) (y : Arr R (Vec Dy ℝ)) 
   rw [expLbi_eq]
   exact h
 
+/-- the fourth-order integral of `_lower_bound_integrals` (exp class) is
+`∫ h_k(x)² · exp(expLbLn ω h_k(x)) · (ã_kᵀ(y − Mx − b))² · p(x) dx` for every `ω` -/
+theorem exp_het4_integral (c : HeteroB Dy Dx Da Dk ℝ) (y : Arr R (Vec Dy ℝ)) (k : Fin Dk) (ω : Arr R ℝ)
+    (r : Fin R) :
+    Integrable (fun x => hW (c.W k) x ^ 2
+      * (exp (expLbLn (ω r) (hW (c.W k) x)) * proj c (toV (y r)) x k ^ 2 * dens p r x)) ∧
+    (((p.toMeasure.hadamard be (expLbFactor (c.W k) ω) true).intView be).2.integrateQuarticInner
+        (hForm (c.W k) : AffForm R 1 Dx ℝ) (hForm (c.W k))
+        (residualForm c y (tab fun i => (mmul (c.Lambda 0) c.Ak) i k))
+        (residualForm c y (tab fun i => (mmul (c.Lambda 0) c.Ak) i k))) r
+      = ∫ x, hW (c.W k) x ^ 2
+          * (exp (expLbLn (ω r) (hW (c.W k) x)) * proj c (toV (y r)) x k ^ 2 * dens p r x) := by
+  have hlb : (p.toMeasure.hadamard be (expLbFactor (c.W k) ω) true).Inv :=
+    C04.C04_hadamard hbe _ _ true hp (expLbFactor_psd _ _)
+  have h := quarticInner_integral hbe hlb (hForm (c.W k) : AffForm R 1 Dx ℝ) (hForm (c.W k))
+    (residualForm c y (tab fun i => (mmul (c.Lambda 0) c.Ak) i k))
+    (residualForm c y (tab fun i => (mmul (c.Lambda 0) c.Ak) i k)) r
+  have e : ∀ x : Fin Dx → ℝ,
+      ((∑ i, affFn (hForm (c.W k) : AffForm R 1 Dx ℝ) r i x * affFn (hForm (c.W k) : AffForm R 1 Dx ℝ) r i x)
+        * ∑ i, affFn (residualForm c y (tab fun i => (mmul (c.Lambda 0) c.Ak) i k)) r i x
+          * affFn (residualForm c y (tab fun i => (mmul (c.Lambda 0) c.Ak) i k)) r i x)
+        * Real.exp ((p.toMeasure.hadamard be (expLbFactor (c.W k) ω) true).evalLn r (ofV x))
+      = hW (c.W k) x ^ 2
+          * (exp (expLbLn (ω r) (hW (c.W k) x)) * proj c (toV (y r)) x k ^ 2 * dens p r x) := by
+    intro x
+    rw [Fin.sum_univ_one, Fin.sum_univ_one, affFn_hForm, affFn_residualForm, C01.C01_hadamard,
+      Real.exp_add, expLbFactor_evalLn, dens]
+    ring
+  simp_rw [e] at h
+  exact h
+
 end expHet
 
 /-! ### generic comparison of the two expectations -/
+
+/-- if `0 ≤ G ≤ 1`, `lbG·g_k² ≤ G·g_k²` ALMOST EVERYWHERE and `0 ≤ ℓ ≤ ub` pointwise, with the bound's
+pieces integrable, then the true integrand is integrable and the expectation of the bound's integrand
+is below the expectation of the true one (monotonicity of the integral, integrability PROVED) -/
+theorem expectation_mono_ae (c : HeteroB Dy Dx Da Dk ℝ) (y : Fin Dy → ℝ) (ρ : (Fin Dx → ℝ) → ℝ)
+    (hρ0 : ∀ x, 0 ≤ ρ x) (hρ : Integrable ρ) (hρ1 : ∫ x, ρ x = 1)
+    (hQ : Integrable fun x => (resid c y x ⬝ᵥ toM (c.Lambda 0) *ᵥ resid c y x) * ρ x)
+    (hq : ∀ k, Integrable fun x => proj c y x k ^ 2 * ρ x)
+    (G lbG ℓ ub : (Fin Dx → ℝ) → Fin Dk → ℝ)
+    (hGm : ∀ k, AEStronglyMeasurable fun x => G x k) (hG0 : ∀ x k, 0 ≤ G x k) (hG1 : ∀ x k, G x k ≤ 1)
+    (hlbG : ∀ k, ∀ᵐ x, lbG x k * proj c y x k ^ 2 ≤ G x k * proj c y x k ^ 2)
+    (hlbGi : ∀ k, Integrable fun x => lbG x k * proj c y x k ^ 2 * ρ x)
+    (hℓm : ∀ k, AEStronglyMeasurable fun x => ℓ x k) (hℓ0 : ∀ x k, 0 ≤ ℓ x k)
+    (hℓub : ∀ x k, ℓ x k ≤ ub x k) (hubi : ∀ k, Integrable fun x => ub x k * ρ x) :
+    Integrable (fun x => lnForm c y x (G x) (ℓ x) * ρ x) ∧
+    ∫ x, lnForm c y x (lbG x) (ub x) * ρ x ≤ ∫ x, lnForm c y x (G x) (ℓ x) * ρ x := by
+  have hGi : ∀ k, Integrable fun x => G x k * proj c y x k ^ 2 * ρ x := by
+    intro k
+    have h := (hq k).bdd_mul (c := 1) (hGm k) (ae_of_all _ fun x => by
+      rw [Real.norm_eq_abs, abs_le]
+      exact ⟨by linarith [hG0 x k], hG1 x k⟩)
+    exact h.congr (ae_of_all _ fun x => by ring)
+  have hℓi : ∀ k, Integrable fun x => ℓ x k * ρ x := by
+    intro k
+    refine (hubi k).mono' ((hℓm k).mul hρ.aestronglyMeasurable) (ae_of_all _ fun x => ?_)
+    rw [Real.norm_eq_abs, abs_of_nonneg (mul_nonneg (hℓ0 x k) (hρ0 x))]
+    exact mul_le_mul_of_nonneg_right (hℓub x k) (hρ0 x)
+  have h1 := integral_lnForm c y ρ lbG ub hρ hρ1 hQ hlbGi hubi
+  have h2 := integral_lnForm c y ρ G ℓ hρ hρ1 hQ hGi hℓi
+  refine ⟨h2.1, integral_mono_ae h1.1 h2.1 ?_⟩
+  filter_upwards [ae_all_iff.2 hlbG] with x hx
+  exact mul_le_mul_of_nonneg_right (lnForm_mono' c y x hx (hℓub x)) (hρ0 x)
 
 /-- if `0 ≤ lbG ≤ G ≤ 1` and `0 ≤ ℓ ≤ ub` pointwise, with the bound's pieces integrable, then the
 true integrand is integrable and the expectation of the bound's integrand is below the
@@ -967,28 +1193,64 @@ theorem expectation_mono (c : HeteroB Dy Dx Da Dk ℝ) (y : Fin Dy → ℝ) (ρ 
     (hℓm : ∀ k, AEStronglyMeasurable fun x => ℓ x k) (hℓ0 : ∀ x k, 0 ≤ ℓ x k)
     (hℓub : ∀ x k, ℓ x k ≤ ub x k) (hubi : ∀ k, Integrable fun x => ub x k * ρ x) :
     Integrable (fun x => lnForm c y x (G x) (ℓ x) * ρ x) ∧
-    ∫ x, lnForm c y x (lbG x) (ub x) * ρ x ≤ ∫ x, lnForm c y x (G x) (ℓ x) * ρ x := by
-  have hGi : ∀ k, Integrable fun x => G x k * proj c y x k ^ 2 * ρ x := by
-    intro k
-    have h := (hq k).bdd_mul (c := 1) (hGm k) (ae_of_all _ fun x => by
-      rw [Real.norm_eq_abs, abs_le]
-      exact ⟨by linarith [hlbG0 x k, hlbG x k], hG1 x k⟩)
-    exact h.congr (ae_of_all _ fun x => by ring)
-  have hℓi : ∀ k, Integrable fun x => ℓ x k * ρ x := by
-    intro k
-    refine (hubi k).mono' ((hℓm k).mul hρ.aestronglyMeasurable) (ae_of_all _ fun x => ?_)
-    rw [Real.norm_eq_abs, abs_of_nonneg (mul_nonneg (hℓ0 x k) (hρ0 x))]
-    exact mul_le_mul_of_nonneg_right (hℓub x k) (hρ0 x)
-  have h1 := integral_lnForm c y ρ lbG ub hρ hρ1 hQ hlbGi hubi
-  have h2 := integral_lnForm c y ρ G ℓ hρ hρ1 hQ hGi hℓi
-  refine ⟨h2.1, integral_mono h1.1 h2.1 fun x => ?_⟩
-  exact mul_le_mul_of_nonneg_right (lnForm_mono c y x (hlbG x) (hℓub x)) (hρ0 x)
+    ∫ x, lnForm c y x (lbG x) (ub x) * ρ x ≤ ∫ x, lnForm c y x (G x) (ℓ x) * ρ x :=
+  expectation_mono_ae c y ρ hρ0 hρ hρ1 hQ hq G lbG ℓ ub hGm
+    (fun x k => (hlbG0 x k).trans (hlbG x k)) hG1
+    (fun k => ae_of_all _ fun x => mul_le_mul_of_nonneg_right (hlbG x k) (sq_nonneg _))
+    hlbGi hℓm hℓ0 hℓub hubi
 
 theorem continuous_hW (Wi : Vec (Dx + 1) ℝ) : Continuous (hW Wi) := by
   unfold hW dotProduct
   fun_prop
 
-/-! ### `_get_omega_star`: the loop does not run, `ω* = ω†` (as coded) -/
+/-! ### `_get_omega_star`: invariants of the fixed-point `while_loop`
+
+The loop is started at `(ω†, ω† + 1, 0)`, so it runs: `ω*` is `ω†` only if 100 = 0; in general it is an
+iterate `update^n(ω†)`, `n ≤ 100`.  Nothing below depends on `n` or on convergence: the lower-bound
+theorems only need a property `P` of `ω*` that holds for `ω†` and is preserved by `update`
+(`omegaWhile_invariant`, `baseGetOmegaStar_invariant`). -/
+
+/-- **loop invariant**: a property of the start value that `update` preserves holds for the result of
+the `while_loop`, whatever the number of iterations -/
+theorem omegaWhile_invariant (P : Arr R ℝ → Prop) (update : Arr R ℝ → Arr R ℝ)
+    (hupd : ∀ ω, P ω → P (update ω)) (fuel : Nat) (cur prev : Arr R ℝ) (hcur : P cur) :
+    P (omegaWhile update fuel cur prev) := by
+  induction fuel generalizing cur prev with
+  | zero => exact hcur
+  | succ n ih =>
+    unfold omegaWhile
+    split
+    · exact ih _ _ (hupd _ hcur)
+    · exact hcur
+
+/-- the result of the loop is the start value or a value of `update` -/
+theorem omegaWhile_eq_or (update : Arr R ℝ → Arr R ℝ) (fuel : Nat) (cur prev : Arr R ℝ) :
+    omegaWhile update fuel cur prev = cur ∨ ∃ ω, omegaWhile update fuel cur prev = update ω :=
+  omegaWhile_invariant (fun ω => ω = cur ∨ ∃ ω', ω = update ω') update
+    (fun ω _ => Or.inr ⟨ω, rfl⟩) fuel cur prev (Or.inl rfl)
+
+/-- **invariant of `_get_omega_star`**: what holds for `ω†` and is preserved by `_update_omega_star`
+holds for `ω*` -/
+theorem baseGetOmegaStar_invariant (god : OmegaDaggerFn ℝ) (upd : UpdateFn ℝ) (be : Backend ℝ)
+    (c : HeteroB Dy Dx Da Dk ℝ) (p : PdfV R Dx ℝ) (y : Arr R (Vec Dy ℝ)) (Wi : Vec (Dx + 1) ℝ)
+    (ai : Vec Dy ℝ) (P : Arr R ℝ → Prop) (h0 : P (god be p Wi))
+    (hupd : ∀ ω, P ω → P (upd be c p y Wi ai ω)) :
+    P (baseGetOmegaStar god upd be c p y Wi ai) := by
+  simp only [baseGetOmegaStar]
+  exact omegaWhile_invariant P _ hupd _ _ _ h0
+
+theorem getOmegaStar_invariant (ops : HLinkOps ℝ) (be : Backend ℝ)
+    (c : HeteroB Dy Dx Da Dk ℝ) (p : PdfV R Dx ℝ) (y : Arr R (Vec Dy ℝ)) (Wi : Vec (Dx + 1) ℝ)
+    (ai : Vec Dy ℝ) (P : Arr R ℝ → Prop) (h0 : P (ops.getOmegaDagger be p Wi))
+    (hupd : ∀ ω, P ω → P (ops.updateOmegaStar be c p y Wi ai ω)) :
+    P (getOmegaStar ops be c p y Wi ai) :=
+  baseGetOmegaStar_invariant _ _ be c p y Wi ai P h0 hupd
+
+/-- the variational parameter `ω*` the class uses in the heteroscedastic term of unit `k`, component
+`r`: the result of `_get_omega_star(p_x, y, W_k, ã_k)` (`ã_k` column `k` of `ΛA_k`) -/
+noncomputable def omegaStar (ops : HLinkOps ℝ) (be : Backend ℝ) (c : HeteroB Dy Dx Da Dk ℝ)
+    (p : PdfV R Dx ℝ) (y : Arr R (Vec Dy ℝ)) (r : Fin R) (k : Fin Dk) : ℝ :=
+  getOmegaStar ops be c p y (c.W k) (tab fun i => (mmul (c.Lambda 0) c.Ak) i k) r
 
 theorem foldl_max_zero (l : List ℝ) (h : ∀ x ∈ l, x = 0) :
     l.foldl (fun m x => if Transc.lt m x then x else m) 0 = 0 := by
@@ -1011,6 +1273,8 @@ theorem maxAbsDiff_self (a : Arr R ℝ) : maxAbsDiff a a = 0 := by
 theorem omegaTol_pos : (0 : ℝ) < omegaTol := by
   simp only [omegaTol, ofNat_real]; norm_num
 
+/-- the loop stops at once when started with two equal iterates (NOT how `_get_omega_star` starts
+it; kept as a fact about `lax.while_loop`) -/
 theorem omegaWhile_self (update : Arr R ℝ → Arr R ℝ) (fuel : Nat) (cur : Arr R ℝ) :
     omegaWhile update fuel cur cur = cur := by
   cases fuel with
@@ -1019,11 +1283,140 @@ theorem omegaWhile_self (update : Arr R ℝ → Arr R ℝ) (fuel : Nat) (cur : A
     have : ¬ (omegaTol : ℝ) < 0 := not_lt.2 omegaTol_pos.le
     simp [omegaWhile, maxAbsDiff_self, this]
 
-/-- `_get_omega_star` returns `omega_dagger` (the `while_loop` condition is false on entry) -/
-theorem baseGetOmegaStar_eq (god : OmegaDaggerFn ℝ) (upd : UpdateFn ℝ) (be : Backend ℝ)
+theorem foldl_max_one (l : List ℝ) (h : ∀ x ∈ l, x = 1) :
+    l.foldl (fun m x => if Transc.lt m x then x else m) 1 = 1 := by
+  induction l with
+  | nil => rfl
+  | cons a l ih =>
+    have ha : a = 1 := h a (by simp)
+    subst ha
+    simp only [List.foldl_cons, transc_lt, lt_self_iff_false, decide_false, Bool.false_eq_true, if_false]
+    exact ih fun x hx => h x (by simp [hx])
+
+/-- the start pair `(ω†, ω† + 1)` of `_get_omega_star` differs by exactly one -/
+theorem maxAbsDiff_add_one (a : Arr R ℝ) (hR : 0 < R) : maxAbsDiff a (tab fun r => a r + 1) = 1 := by
+  unfold maxAbsDiff
+  obtain ⟨n, rfl⟩ : ∃ n, R = n + 1 := ⟨R - 1, by omega⟩
+  rw [List.ofFn_succ]
+  have h1 : ∀ r : Fin (n + 1), absS (a r - (tab fun r => a r + 1 : Arr (n + 1) ℝ) r) = 1 := by
+    intro r
+    simp [absS]
+  simp only [List.foldl_cons, h1, transc_lt, zero_lt_one, decide_true, if_true]
+  apply foldl_max_one
+  intro x hx
+  rw [List.mem_ofFn] at hx
+  obtain ⟨r, rfl⟩ := hx
+  rfl
+
+/-- **the repaired loop runs**: for `R ≥ 1` the condition of the `while_loop` holds on entry, so
+`_get_omega_star` performs at least one `_update_omega_star` step (`ω*` is NOT `ω†` in general) -/
+theorem baseGetOmegaStar_first_step (god : OmegaDaggerFn ℝ) (upd : UpdateFn ℝ) (be : Backend ℝ)
     (c : HeteroB Dy Dx Da Dk ℝ) (p : PdfV R Dx ℝ) (y : Arr R (Vec Dy ℝ)) (Wi : Vec (Dx + 1) ℝ)
-    (ai : Vec Dy ℝ) : baseGetOmegaStar god upd be c p y Wi ai = god be p Wi := by
-  simp only [baseGetOmegaStar, omegaWhile_self]
+    (ai : Vec Dy ℝ) (hR : 0 < R) :
+    baseGetOmegaStar god upd be c p y Wi ai =
+      omegaWhile (fun om => upd be c p y Wi ai om) 99 (upd be c p y Wi ai (god be p Wi)) (god be p Wi) := by
+  have ht : (omegaTol : ℝ) < 1 := by
+    simp only [omegaTol, ofNat_real]; norm_num
+  simp only [baseGetOmegaStar]
+  show omegaWhile _ (99 + 1) _ _ = _
+  rw [omegaWhile, maxAbsDiff_add_one _ hR]
+  simp [ht]
+
+/-! ### the moment ratio of `_update_omega_star`: what `√(quartic/quadratic)` can be -/
+
+theorem ae_zero_of_integral_zero {F : (Fin Dx → ℝ) → ℝ} (hF0 : ∀ x, 0 ≤ F x) (iF : Integrable F)
+    (hz : ∫ x, F x = 0) : ∀ᵐ x, F x = 0 :=
+  (integral_eq_zero_iff_of_nonneg (fun x => hF0 x) iF).1 hz
+
+/-- `√(∫h²F / ∫F)` is non-zero unless `h²F = 0` almost everywhere (`F ≥ 0`) -/
+theorem sqrt_ratio_cases {F h : (Fin Dx → ℝ) → ℝ} (hF0 : ∀ x, 0 ≤ F x) (iF : Integrable F)
+    (i4 : Integrable fun x => h x ^ 2 * F x) :
+    Real.sqrt ((∫ x, h x ^ 2 * F x) / ∫ x, F x) ≠ 0 ∨ ∀ᵐ x, h x ^ 2 * F x = 0 := by
+  have h40 : ∀ x, 0 ≤ h x ^ 2 * F x := fun x => mul_nonneg (sq_nonneg _) (hF0 x)
+  have q4 : 0 ≤ ∫ x, h x ^ 2 * F x := integral_nonneg h40
+  have q2 : 0 ≤ ∫ x, F x := integral_nonneg hF0
+  by_cases hs : Real.sqrt ((∫ x, h x ^ 2 * F x) / ∫ x, F x) = 0
+  · right
+    rw [Real.sqrt_eq_zero'] at hs
+    rcases q2.eq_or_lt with e2 | e2
+    · filter_upwards [ae_zero_of_integral_zero hF0 iF e2.symm] with x hx
+      rw [hx, mul_zero]
+    · have : (∫ x, h x ^ 2 * F x) ≤ 0 := by
+        by_contra hc
+        exact absurd hs (not_le.2 (div_pos (not_le.1 hc) e2))
+      exact ae_zero_of_integral_zero h40 i4 (le_antisymm this q4)
+  · exact Or.inl hs
+
+/-- for constant `h ≡ w0` the ratio is `|w0|` unless `F = 0` almost everywhere -/
+theorem sqrt_ratio_const {F : (Fin Dx → ℝ) → ℝ} (hF0 : ∀ x, 0 ≤ F x) (iF : Integrable F) (w0 : ℝ) :
+    Real.sqrt ((∫ x, w0 ^ 2 * F x) / ∫ x, F x) ^ 2 = w0 ^ 2 ∨ ∀ᵐ x, F x = 0 := by
+  by_cases e2 : ∫ x, F x = 0
+  · exact Or.inr (ae_zero_of_integral_zero hF0 iF e2)
+  · left
+    rw [integral_const_mul, mul_div_assoc, div_self e2, mul_one, Real.sq_sqrt (sq_nonneg _)]
+
+/-! ### exp link: one step of the fixed-point iteration -/
+section expUpdate
+variable {be : Backend ℝ} (hbe : be.Spec) {p : PdfV R Dx ℝ} (hp : p.toMeasure.Inv)
+include hbe hp
+
+omit hbe hp in
+/-- `_update_omega_star` (exp class): `√(quartic / quadratic)` of the two integrals -/
+theorem exp_update_eq (c : HeteroB Dy Dx Da Dk ℝ) (y : Arr R (Vec Dy ℝ)) (Wi : Vec (Dx + 1) ℝ)
+    (ai : Vec Dy ℝ) (ω : Arr R ℝ) (r : Fin R) :
+    baseUpdateOmegaStar expLowerBoundIntegrals be c p y Wi ai ω r =
+      Real.sqrt ((((p.toMeasure.hadamard be (expLbFactor Wi ω) true).intView be).2.integrateQuarticInner
+          (hForm Wi : AffForm R 1 Dx ℝ) (hForm Wi) (residualForm c y ai) (residualForm c y ai)) r
+        / (expLowerBoundIntegrals be c p y Wi ai ω false).1 r) := by
+  simp only [baseUpdateOmegaStar, expLbi_true, tab_apply, transc_sqrt]
+
+/-- **one step of the fixed-point iteration (exp class)**: the new parameter is non-zero, unless
+`h_k(x)·ã_kᵀ(y − Mx − b) = 0` for almost every `x` (then a moment is zero and the real-number model of
+`√(quartic/quadratic)` returns `0`; the floating-point code returns `0` or NaN) — for EVERY old `ω` -/
+theorem exp_update_cases (c : HeteroB Dy Dx Da Dk ℝ) (y : Arr R (Vec Dy ℝ)) (k : Fin Dk) (ω : Arr R ℝ)
+    (r : Fin R) :
+    baseUpdateOmegaStar expLowerBoundIntegrals be c p y (c.W k)
+        (tab fun i => (mmul (c.Lambda 0) c.Ak) i k) ω r ≠ 0
+      ∨ ∀ᵐ x, hW (c.W k) x * proj c (toV (y r)) x k = 0 := by
+  obtain ⟨i2, e2⟩ := exp_het_integral hbe hp c y k ω r
+  obtain ⟨i4, e4⟩ := exp_het4_integral hbe hp c y k ω r
+  rw [exp_update_eq, e2, e4]
+  rcases sqrt_ratio_cases (h := hW (c.W k)) (fun x => mul_nonneg (mul_nonneg (exp_pos _).le (sq_nonneg _))
+    (dens_nonneg p r x)) i2 i4 with h | h
+  · exact Or.inl h
+  · right
+    filter_upwards [h] with x hx
+    have hd : 0 < dens p r x := exp_pos _
+    have he := exp_pos (expLbLn (ω r) (hW (c.W k) x))
+    have h3 : (hW (c.W k) x * proj c (toV (y r)) x k) ^ 2
+        * (exp (expLbLn (ω r) (hW (c.W k) x)) * dens p r x) = 0 := by rw [← hx]; ring
+    exact pow_eq_zero_iff two_ne_zero |>.1 ((mul_eq_zero.1 h3).resolve_right (mul_pos he hd).ne')
+
+/-- **one step of the iteration at zero input weights (exp class)**: `h_k ≡ w0_k`, so the new
+parameter is `|w0_k|` (the tangent point), unless the projected residual vanishes almost everywhere -/
+theorem exp_update_zero_weights (c : HeteroB Dy Dx Da Dk ℝ) (y : Arr R (Vec Dy ℝ)) (k : Fin Dk)
+    (ω : Arr R ℝ) (r : Fin R) (hw : ∀ j, wTail (c.W k) j = 0) :
+    baseUpdateOmegaStar expLowerBoundIntegrals be c p y (c.W k)
+        (tab fun i => (mmul (c.Lambda 0) c.Ak) i k) ω r ^ 2 = wHead (c.W k) ^ 2
+      ∨ ∀ᵐ x, proj c (toV (y r)) x k = 0 := by
+  obtain ⟨i2, e2⟩ := exp_het_integral hbe hp c y k ω r
+  obtain ⟨-, e4⟩ := exp_het4_integral hbe hp c y k ω r
+  have hh : ∀ x, hW (c.W k) x = wHead (c.W k) := by
+    intro x; simp [hW, dotProduct, hw]
+  rw [exp_update_eq, e2, e4]
+  simp_rw [hh] at i2 ⊢
+  rcases sqrt_ratio_const (fun x => mul_nonneg (mul_nonneg (exp_pos _).le (sq_nonneg _))
+    (dens_nonneg p r x)) i2 (wHead (c.W k)) with h | h
+  · exact Or.inl h
+  · right
+    filter_upwards [h] with x hx
+    have hd : 0 < dens p r x := exp_pos _
+    have he := exp_pos (expLbLn (ω r) (wHead (c.W k)))
+    have h3 : proj c (toV (y r)) x k ^ 2
+        * (exp (expLbLn (ω r) (wHead (c.W k))) * dens p r x) = 0 := by rw [← hx]; ring
+    exact pow_eq_zero_iff two_ne_zero |>.1 ((mul_eq_zero.1 h3).resolve_right (mul_pos he hd).ne')
+
+end expUpdate
 
 /-! ### exp link: log-determinant term, homoscedastic term, assembly -/
 
@@ -1089,8 +1482,8 @@ theorem proj_sq_integrable (c : HeteroB Dy Dx Da Dk ℝ) (y : Arr R (Vec Dy ℝ)
   simp_rw [Fin.sum_univ_one, affFn_residualForm] at h
   exact h.congr (ae_of_all _ fun x => by simp only [dens]; ring)
 
-/-- the variational parameter the exp / cosh−1 classes use for unit `k` of component `r`:
-`ω†_k = √E[h_k²]` (and `ω*_k = ω†_k` as coded) -/
+/-- the variational parameter the exp / cosh−1 classes use in `get_lb_log_det` for unit `k` of
+component `r`: `ω†_k = √E[h_k²]` (also the start value of the iteration for `ω*_k`) -/
 noncomputable def omegaDag (be : Backend ℝ) (c : HeteroB Dy Dx Da Dk ℝ) (p : PdfV R Dx ℝ) (r : Fin R)
     (k : Fin Dk) : ℝ := baseGetOmegaDagger be p (c.W k) r
 
@@ -1099,23 +1492,34 @@ theorem integrateLogConditionalY_exp_eq (c : HeteroB Dy Dx Da Dk ℝ) (y : Arr R
     c.integrateLogConditionalY expOps be p y r =
       -(1 / 2) * (((p.toMeasure.intView be).2.integrateQuadInner (homoA c y) (homoB c y)) r
         - (∑ k, (expLowerBoundIntegrals be c p y (c.W k) (tab fun i => (mmul (c.Lambda 0) c.Ak) i k)
-            (baseGetOmegaDagger be p (c.W k)) false).1 r)
+            (getOmegaStar expOps be c p y (c.W k) (tab fun i => (mmul (c.Lambda 0) c.Ak) i k)) false).1 r)
         + (c.lnDetSigma 0 + ∑ k, expKFunc be p (c.W k) (baseGetOmegaDagger be p (c.W k)) r)
         + (Dy : ℝ) * log (2 * π)) := by
   simp only [HeteroB.integrateLogConditionalY, getLbQuadraticTerm_eq, tab_apply, half_real, ofNat_real,
-    log2pi_real, expOps, baseGetLbHeteroscedasticTermI, baseGetOmegaStar_eq, baseGetLbLogDet, vsum_real]
+    log2pi_real, expOps, baseGetLbHeteroscedasticTermI, getOmegaStar, baseGetLbLogDet, vsum_real]
   ring
+
+/-- **`ω*` of the exp class** (result of the fixed-point loop started at `ω† ≠ 0`): non-zero, unless
+`h_k(x)·ã_kᵀ(y − Mx − b) = 0` for almost every `x` (loop invariant; no statement about the number
+of iterations or convergence is needed) -/
+theorem omegaStar_exp_cases (c : HeteroB Dy Dx Da Dk ℝ) (y : Arr R (Vec Dy ℝ)) (r : Fin R) (k : Fin Dk)
+    (h0 : omegaDag be c p r k ≠ 0) :
+    omegaStar expOps be c p y r k ≠ 0 ∨ ∀ᵐ x, hW (c.W k) x * proj c (toV (y r)) x k = 0 :=
+  getOmegaStar_invariant expOps be c p y (c.W k) (tab fun i => (mmul (c.Lambda 0) c.Ak) i k)
+    (fun ω => ω r ≠ 0 ∨ ∀ᵐ x, hW (c.W k) x * proj c (toV (y r)) x k = 0) (Or.inl h0)
+    (fun ω _ => exp_update_cases hbe hp c y k ω r)
 
 /-- **identification of the returned value (exp class, all shapes `Dy ≤ Da`)**:
 `integrate_log_conditional_y(p_x, y)` is the expectation under `p_x` of `expLbIntegrand`
-at `ω* = ω† = √E[h²]`. -/
+at `ω*` (result of `_get_omega_star`, heteroscedastic term) and `ω† = √E[h²]` (log-determinant). -/
 theorem C17_exp_value_eq_integral (c : HeteroB Dy Dx Da Dk ℝ) (y : Arr R (Vec Dy ℝ)) (r : Fin R)
     (hp1 : ∫ x, dens p r x = 1) :
-    Integrable (fun x => expLbIntegrand c (toV (y r)) (omegaDag be c p r) (omegaDag be c p r) x * dens p r x) ∧
+    Integrable (fun x => expLbIntegrand c (toV (y r)) (omegaStar expOps be c p y r) (omegaDag be c p r) x
+      * dens p r x) ∧
     c.integrateLogConditionalY expOps be p y r =
-      ∫ x, expLbIntegrand c (toV (y r)) (omegaDag be c p r) (omegaDag be c p r) x * dens p r x := by
+      ∫ x, expLbIntegrand c (toV (y r)) (omegaStar expOps be c p y r) (omegaDag be c p r) x * dens p r x := by
   have h := integral_lnForm c (toV (y r)) (dens p r)
-    (fun x k => exp (expLbLn (omegaDag be c p r k) (hW (c.W k) x)))
+    (fun x k => exp (expLbLn (omegaStar expOps be c p y r k) (hW (c.W k) x)))
     (fun x k => expK (omegaDag be c p r k) (hW (c.W k) x) (hW (c.W k) x * hW (c.W k) x))
     (dens_integrable hp r) hp1 (homo_integral hbe hp c y r).1
     (fun k => (exp_het_integral hbe hp c y k _ r).1)
@@ -1131,7 +1535,9 @@ theorem C17_exp_value_eq_integral (c : HeteroB Dy Dx Da Dk ℝ) (y : Arr R (Vec 
 
 /-- **C17 (lower bound, exp class; all shapes)**: the returned value never exceeds the expectation
 of the log-density built from the RETURNED precision and log-determinant of
-`get_conditional_cov(x, invert=True)`; the right-hand side is integrable. -/
+`get_conditional_cov(x, invert=True)`; the right-hand side is integrable.  The only hypothesis on
+the variational parameters is `ω† ≠ 0`; what is needed of the loop output `ω*` is a loop invariant
+(`omegaStar_exp_cases`). -/
 theorem C17_lower_bound_exp_coded (c : HeteroB Dy Dx Da Dk ℝ) (y : Arr R (Vec Dy ℝ)) (r : Fin R)
     (hp1 : ∫ x, dens p r x = 1) (hω : ∀ k, omegaDag be c p r k ≠ 0) :
     Integrable (fun x => normalLn (toM (c.M 0) *ᵥ x + toV (c.b 0)) (precAt c (dval expOps c x))
@@ -1144,19 +1550,24 @@ theorem C17_lower_bound_exp_coded (c : HeteroB Dy Dx Da Dk ℝ) (y : Arr R (Vec 
   have hcont : ∀ k, Continuous fun x => exp (hW (c.W k) x) := fun k =>
     Real.continuous_exp.comp (continuous_hW _)
   have hpos : ∀ k x, (0:ℝ) < 1 + exp (hW (c.W k) x) := fun k x => by have := exp_pos (hW (c.W k) x); linarith
-  have hm := expectation_mono c (toV (y r)) (dens p r) (dens_nonneg p r) (dens_integrable hp r) hp1
+  have hm := expectation_mono_ae c (toV (y r)) (dens p r) (dens_nonneg p r) (dens_integrable hp r) hp1
     (homo_integral hbe hp c y r).1 (fun k => proj_sq_integrable hbe hp c y k r)
     (fun x k => dval expOps c x k / (1 + dval expOps c x k))
-    (fun x k => exp (expLbLn (omegaDag be c p r k) (hW (c.W k) x)))
+    (fun x k => exp (expLbLn (omegaStar expOps be c p y r k) (hW (c.W k) x)))
     (fun x k => log (1 + dval expOps c x k))
     (fun x k => expK (omegaDag be c p r k) (hW (c.W k) x) (hW (c.W k) x * hW (c.W k) x))
     (fun k => by
       simp_rw [hd]
       exact ((hcont k).div (continuous_const.add (hcont k)) fun x => (hpos k x).ne').aestronglyMeasurable)
     (fun x k => by
+      rw [hd]; exact div_nonneg (exp_pos _).le (hpos k x).le)
+    (fun x k => by
       rw [hd, div_le_one (hpos k x)]; linarith)
-    (fun x k => (exp_pos _).le)
-    (fun x k => by rw [hd]; exact expLb_le _ _ (hω k))
+    (fun k => by
+      rcases omegaStar_exp_cases hbe hp c y r k (hω k) with h | h
+      · exact ae_of_all _ fun x => by rw [hd]; exact expLb_mul_le _ _ _ (Or.inl h)
+      · filter_upwards [h] with x hx
+        rw [hd]; exact expLb_mul_le _ _ _ (Or.inr hx))
     (fun k => (exp_het_integral hbe hp c y k _ r).1)
     (fun k => by
       simp_rw [hd]
@@ -1229,6 +1640,18 @@ theorem coshLbi_eq (be : Backend ℝ) (c : HeteroB Dy Dx Da Dk ℝ) (p : PdfV R 
         (((lb.hadamardBF be (expPlusFactor Wi) true).intView be).2.integrateQuadInner fq fq) r
         + (((lb.hadamardBF be (expMinusFactor Wi) true).intView be).2.integrateQuadInner fq fq) r
         - ((lb.intView be).2.integrateQuadInner fq fq) r := rfl
+
+theorem coshLbi_true (be : Backend ℝ) (c : HeteroB Dy Dx Da Dk ℝ) (p : PdfV R Dx ℝ) (y : Arr R (Vec Dy ℝ))
+    (Wi : Vec (Dx + 1) ℝ) (ai : Vec Dy ℝ) (ω : Arr R ℝ) :
+    coshLowerBoundIntegrals be c p y Wi ai ω true =
+      ((coshLowerBoundIntegrals be c p y Wi ai ω false).1,
+        let lb := p.toMeasure.hadamard be (coshLbFactor Wi ω) true
+        let fq := residualForm c y ai
+        let fh : AffForm R 1 Dx ℝ := hForm Wi
+        some (tab fun r =>
+          (((lb.hadamardBF be (expPlusFactor Wi) true).intView be).2.integrateQuarticInner fh fh fq fq) r
+          + (((lb.hadamardBF be (expMinusFactor Wi) true).intView be).2.integrateQuarticInner fh fh fq fq) r
+          - ((lb.intView be).2.integrateQuarticInner fh fh fq fq) r)) := rfl
 
 theorem coshLbFactor_evalLn (Wi : Vec (Dx + 1) ℝ) (ω : Arr R ℝ) (r : Fin R) (x : Fin Dx → ℝ) :
     (coshLbFactor Wi ω).evalLn r (ofV x) = coshLbLn (ω r) (hW Wi x) := by
@@ -1324,6 +1747,137 @@ theorem cosh_het_integral (c : HeteroB Dy Dx Da Dk ℝ) (y : Arr R (Vec Dy ℝ))
   simp only [tab_apply]
   rw [← hlbdef, ← hfq, h1.2, h2.2, h3.2]
 
+/-- the fourth-order integral of `_lower_bound_integrals` (cosh−1 class) is
+`∫ h_k² (cosh h_k − 1)·exp(coshLbLn ω h_k(x)) · (ã_kᵀ(y − Mx − b))² · p(x) dx` for every `ω` -/
+theorem cosh_het4_integral (c : HeteroB Dy Dx Da Dk ℝ) (y : Arr R (Vec Dy ℝ)) (k : Fin Dk) (ω : Arr R ℝ)
+    (r : Fin R) :
+    Integrable (fun x => hW (c.W k) x ^ 2 * ((cosh (hW (c.W k) x) - 1) * exp (coshLbLn (ω r) (hW (c.W k) x))
+      * proj c (toV (y r)) x k ^ 2 * dens p r x)) ∧
+    (let lb := p.toMeasure.hadamard be (coshLbFactor (c.W k) ω) true
+     let fq := residualForm c y (tab fun i => (mmul (c.Lambda 0) c.Ak) i k)
+     let fh : AffForm R 1 Dx ℝ := hForm (c.W k)
+     (((lb.hadamardBF be (expPlusFactor (c.W k)) true).intView be).2.integrateQuarticInner fh fh fq fq) r
+      + (((lb.hadamardBF be (expMinusFactor (c.W k)) true).intView be).2.integrateQuarticInner fh fh fq fq) r
+      - ((lb.intView be).2.integrateQuarticInner fh fh fq fq) r)
+      = ∫ x, hW (c.W k) x ^ 2 * ((cosh (hW (c.W k) x) - 1) * exp (coshLbLn (ω r) (hW (c.W k) x))
+          * proj c (toV (y r)) x k ^ 2 * dens p r x) := by
+  set lb := p.toMeasure.hadamard be (coshLbFactor (c.W k) ω) true with hlbdef
+  set fq := residualForm c y (tab fun i => (mmul (c.Lambda 0) c.Ak) i k) with hfq
+  set fh : AffForm R 1 Dx ℝ := hForm (c.W k) with hfh
+  have hlb : lb.Inv := C04.C04_hadamard hbe _ _ true hp (coshLbFactor_psd _ _)
+  have hplus : (lb.hadamardBF be (expPlusFactor (c.W k)) true).Inv :=
+    C04.C04_hadamard_bcast_factor hbe _ _ true hlb (factorPSD_linear _ _)
+  have hminus : (lb.hadamardBF be (expMinusFactor (c.W k)) true).Inv :=
+    C04.C04_hadamard_bcast_factor hbe _ _ true hlb (factorPSD_linear _ _)
+  have h1 := quarticInner_integral hbe hlb fh fh fq fq r
+  have h2 := quarticInner_integral hbe hplus fh fh fq fq r
+  have h3 := quarticInner_integral hbe hminus fh fh fq fq r
+  set E : (Fin Dx → ℝ) → ℝ := fun x => hW (c.W k) x ^ 2 * (exp (coshLbLn (ω r) (hW (c.W k) x))
+    * proj c (toV (y r)) x k ^ 2 * dens p r x) with hE
+  have e1 : ∀ x : Fin Dx → ℝ, ((∑ i, affFn fh r i x * affFn fh r i x)
+      * ∑ i, affFn fq r i x * affFn fq r i x) * Real.exp (lb.evalLn r (ofV x)) = E x := by
+    intro x
+    rw [Fin.sum_univ_one, Fin.sum_univ_one, hfh, affFn_hForm, hfq, affFn_residualForm, hlbdef,
+      C01.C01_hadamard, Real.exp_add, coshLbFactor_evalLn]
+    simp only [hE, dens]
+    ring
+  have e2 : ∀ x : Fin Dx → ℝ, ((∑ i, affFn fh r i x * affFn fh r i x)
+      * ∑ i, affFn fq r i x * affFn fq r i x)
+      * Real.exp ((lb.hadamardBF be (expPlusFactor (c.W k)) true).evalLn r (ofV x))
+      = exp (hW (c.W k) x) / 2 * E x := by
+    intro x
+    rw [C01.C01_hadamard_bcast_factor, Real.exp_add, expPlusFactor_evalLn, ← e1 x]
+    ring
+  have e3 : ∀ x : Fin Dx → ℝ, ((∑ i, affFn fh r i x * affFn fh r i x)
+      * ∑ i, affFn fq r i x * affFn fq r i x)
+      * Real.exp ((lb.hadamardBF be (expMinusFactor (c.W k)) true).evalLn r (ofV x))
+      = exp (-hW (c.W k) x) / 2 * E x := by
+    intro x
+    rw [C01.C01_hadamard_bcast_factor, Real.exp_add, expMinusFactor_evalLn, ← e1 x]
+    ring
+  simp_rw [e1] at h1
+  simp_rw [e2] at h2
+  simp_rw [e3] at h3
+  have et : ∀ x, hW (c.W k) x ^ 2 * ((cosh (hW (c.W k) x) - 1) * exp (coshLbLn (ω r) (hW (c.W k) x))
+      * proj c (toV (y r)) x k ^ 2 * dens p r x)
+      = (exp (hW (c.W k) x) / 2 * E x + exp (-hW (c.W k) x) / 2 * E x) - E x := by
+    intro x; rw [Real.cosh_eq, hE]; ring
+  simp_rw [et]
+  have h23 : Integrable fun x => exp (hW (c.W k) x) / 2 * E x + exp (-hW (c.W k) x) / 2 * E x :=
+    h2.1.add h3.1
+  refine ⟨h23.sub h1.1, ?_⟩
+  rw [integral_sub h23 h1.1, integral_add h2.1 h3.1, h1.2, h2.2, h3.2]
+
+omit hbe hp in
+/-- `_update_omega_star` (cosh−1 class): `√(quartic / quadratic)` of the two integrals -/
+theorem cosh_update_eq (c : HeteroB Dy Dx Da Dk ℝ) (y : Arr R (Vec Dy ℝ)) (Wi : Vec (Dx + 1) ℝ)
+    (ai : Vec Dy ℝ) (ω : Arr R ℝ) (r : Fin R) :
+    baseUpdateOmegaStar coshLowerBoundIntegrals be c p y Wi ai ω r =
+      Real.sqrt ((let lb := p.toMeasure.hadamard be (coshLbFactor Wi ω) true
+        let fq := residualForm c y ai
+        let fh : AffForm R 1 Dx ℝ := hForm Wi
+        (((lb.hadamardBF be (expPlusFactor Wi) true).intView be).2.integrateQuarticInner fh fh fq fq) r
+          + (((lb.hadamardBF be (expMinusFactor Wi) true).intView be).2.integrateQuarticInner fh fh fq fq) r
+          - ((lb.intView be).2.integrateQuarticInner fh fh fq fq) r)
+        / (coshLowerBoundIntegrals be c p y Wi ai ω false).1 r) := by
+  simp only [baseUpdateOmegaStar, coshLbi_true, tab_apply, transc_sqrt]
+
+omit hbe hp in
+theorem cosh_sub_one_eq_zero {h : ℝ} (hh : cosh h - 1 = 0) : h = 0 := by
+  by_contra h0
+  have := Real.one_lt_cosh.2 h0
+  linarith
+
+/-- **one step of the fixed-point iteration (cosh−1 class)**: the new parameter is non-zero, unless
+`h_k(x)·ã_kᵀ(y − Mx − b) = 0` for almost every `x` — for EVERY old `ω` -/
+theorem cosh_update_cases (c : HeteroB Dy Dx Da Dk ℝ) (y : Arr R (Vec Dy ℝ)) (k : Fin Dk) (ω : Arr R ℝ)
+    (r : Fin R) :
+    baseUpdateOmegaStar coshLowerBoundIntegrals be c p y (c.W k)
+        (tab fun i => (mmul (c.Lambda 0) c.Ak) i k) ω r ≠ 0
+      ∨ ∀ᵐ x, hW (c.W k) x * proj c (toV (y r)) x k = 0 := by
+  obtain ⟨i2, e2⟩ := cosh_het_integral hbe hp c y k ω r
+  obtain ⟨i4, e4⟩ := cosh_het4_integral hbe hp c y k ω r
+  rw [cosh_update_eq, e2, e4]
+  have hge : ∀ x, (0:ℝ) ≤ cosh (hW (c.W k) x) - 1 := fun x => by
+    have := one_le_cosh (hW (c.W k) x); linarith
+  rcases sqrt_ratio_cases (h := hW (c.W k)) (fun x => mul_nonneg (mul_nonneg
+    (mul_nonneg (hge x) (exp_pos _).le) (sq_nonneg _)) (dens_nonneg p r x)) i2 i4 with h | h
+  · exact Or.inl h
+  · right
+    filter_upwards [h] with x hx
+    have hd : 0 < dens p r x := exp_pos _
+    have he := exp_pos (coshLbLn (ω r) (hW (c.W k) x))
+    have h3 : ((hW (c.W k) x * proj c (toV (y r)) x k) ^ 2 * (cosh (hW (c.W k) x) - 1))
+        * (exp (coshLbLn (ω r) (hW (c.W k) x)) * dens p r x) = 0 := by rw [← hx]; ring
+    rcases mul_eq_zero.1 ((mul_eq_zero.1 h3).resolve_right (mul_pos he hd).ne') with h4 | h4
+    · exact pow_eq_zero_iff two_ne_zero |>.1 h4
+    · rw [cosh_sub_one_eq_zero h4, zero_mul]
+
+/-- **one step of the iteration at zero input weights (cosh−1 class)** -/
+theorem cosh_update_zero_weights (c : HeteroB Dy Dx Da Dk ℝ) (y : Arr R (Vec Dy ℝ)) (k : Fin Dk)
+    (ω : Arr R ℝ) (r : Fin R) (hw : ∀ j, wTail (c.W k) j = 0) :
+    baseUpdateOmegaStar coshLowerBoundIntegrals be c p y (c.W k)
+        (tab fun i => (mmul (c.Lambda 0) c.Ak) i k) ω r ^ 2 = wHead (c.W k) ^ 2
+      ∨ ∀ᵐ x, (cosh (wHead (c.W k)) - 1) * proj c (toV (y r)) x k ^ 2 = 0 := by
+  obtain ⟨i2, e2⟩ := cosh_het_integral hbe hp c y k ω r
+  obtain ⟨-, e4⟩ := cosh_het4_integral hbe hp c y k ω r
+  have hh : ∀ x, hW (c.W k) x = wHead (c.W k) := by
+    intro x; simp [hW, dotProduct, hw]
+  rw [cosh_update_eq, e2, e4]
+  simp_rw [hh] at i2 ⊢
+  have hge : (0:ℝ) ≤ cosh (wHead (c.W k)) - 1 := by
+    have := one_le_cosh (wHead (c.W k)); linarith
+  rcases sqrt_ratio_const (fun x => mul_nonneg (mul_nonneg (mul_nonneg hge (exp_pos _).le) (sq_nonneg _))
+    (dens_nonneg p r x)) i2 (wHead (c.W k)) with h | h
+  · exact Or.inl h
+  · right
+    filter_upwards [h] with x hx
+    have hd : 0 < dens p r x := exp_pos _
+    have he := exp_pos (coshLbLn (ω r) (wHead (c.W k)))
+    have h3 : ((cosh (wHead (c.W k)) - 1) * proj c (toV (y r)) x k ^ 2)
+        * (exp (coshLbLn (ω r) (wHead (c.W k))) * dens p r x) = 0 := by rw [← hx]; ring
+    exact (mul_eq_zero.1 h3).resolve_right (mul_pos he hd).ne'
+
 /-- **`k_func` (cosh−1 class) is `∫ coshK ω h(x)² p(x) dx`** for a normalised `p` -/
 theorem cosh_kfunc_integral (Wi : Vec (Dx + 1) ℝ) (ω : Arr R ℝ) (r : Fin R)
     (hp1 : ∫ x, dens p r x = 1) :
@@ -1349,21 +1903,33 @@ theorem integrateLogConditionalY_cosh_eq (c : HeteroB Dy Dx Da Dk ℝ) (y : Arr 
     c.integrateLogConditionalY coshM1Ops be p y r =
       -(1 / 2) * (((p.toMeasure.intView be).2.integrateQuadInner (homoA c y) (homoB c y)) r
         - (∑ k, (coshLowerBoundIntegrals be c p y (c.W k) (tab fun i => (mmul (c.Lambda 0) c.Ak) i k)
-            (baseGetOmegaDagger be p (c.W k)) false).1 r)
+            (getOmegaStar coshM1Ops be c p y (c.W k) (tab fun i => (mmul (c.Lambda 0) c.Ak) i k)) false).1 r)
         + (c.lnDetSigma 0 + ∑ k, coshKFunc be p (c.W k) (baseGetOmegaDagger be p (c.W k)) r)
         + (Dy : ℝ) * log (2 * π)) := by
   simp only [HeteroB.integrateLogConditionalY, getLbQuadraticTerm_eq, tab_apply, half_real, ofNat_real,
-    log2pi_real, coshM1Ops, baseGetLbHeteroscedasticTermI, baseGetOmegaStar_eq, baseGetLbLogDet, vsum_real]
+    log2pi_real, coshM1Ops, baseGetLbHeteroscedasticTermI, getOmegaStar, baseGetLbLogDet, vsum_real]
   ring
 
-/-- **identification of the returned value (cosh−1 class, all shapes `Dy ≤ Da`)** -/
+/-- **`ω*` of the cosh−1 class** (loop invariant): non-zero, unless `h_k(x)·ã_kᵀ(y − Mx − b) = 0` for
+almost every `x` -/
+theorem omegaStar_coshM1_cases (c : HeteroB Dy Dx Da Dk ℝ) (y : Arr R (Vec Dy ℝ)) (r : Fin R) (k : Fin Dk)
+    (h0 : omegaDag be c p r k ≠ 0) :
+    omegaStar coshM1Ops be c p y r k ≠ 0 ∨ ∀ᵐ x, hW (c.W k) x * proj c (toV (y r)) x k = 0 :=
+  getOmegaStar_invariant coshM1Ops be c p y (c.W k) (tab fun i => (mmul (c.Lambda 0) c.Ak) i k)
+    (fun ω => ω r ≠ 0 ∨ ∀ᵐ x, hW (c.W k) x * proj c (toV (y r)) x k = 0) (Or.inl h0)
+    (fun ω _ => cosh_update_cases hbe hp c y k ω r)
+
+/-- **identification of the returned value (cosh−1 class, all shapes `Dy ≤ Da`)**, at `ω*` (result of
+`_get_omega_star`, heteroscedastic term) and `ω† = √E[h²]` (log-determinant) -/
 theorem C17_coshM1_value_eq_integral (c : HeteroB Dy Dx Da Dk ℝ) (y : Arr R (Vec Dy ℝ)) (r : Fin R)
     (hp1 : ∫ x, dens p r x = 1) :
-    Integrable (fun x => coshLbIntegrand c (toV (y r)) (omegaDag be c p r) (omegaDag be c p r) x * dens p r x) ∧
+    Integrable (fun x => coshLbIntegrand c (toV (y r)) (omegaStar coshM1Ops be c p y r) (omegaDag be c p r) x
+      * dens p r x) ∧
     c.integrateLogConditionalY coshM1Ops be p y r =
-      ∫ x, coshLbIntegrand c (toV (y r)) (omegaDag be c p r) (omegaDag be c p r) x * dens p r x := by
+      ∫ x, coshLbIntegrand c (toV (y r)) (omegaStar coshM1Ops be c p y r) (omegaDag be c p r) x
+        * dens p r x := by
   have h := integral_lnForm c (toV (y r)) (dens p r)
-    (fun x k => (cosh (hW (c.W k) x) - 1) * exp (coshLbLn (omegaDag be c p r k) (hW (c.W k) x)))
+    (fun x k => (cosh (hW (c.W k) x) - 1) * exp (coshLbLn (omegaStar coshM1Ops be c p y r k) (hW (c.W k) x)))
     (fun x k => coshK (omegaDag be c p r k) (hW (c.W k) x * hW (c.W k) x))
     (dens_integrable hp r) hp1 (homo_integral hbe hp c y r).1
     (fun k => (cosh_het_integral hbe hp c y k _ r).1)
@@ -1393,19 +1959,24 @@ theorem C17_lower_bound_coshM1_coded (c : HeteroB Dy Dx Da Dk ℝ) (y : Arr R (V
   have hge : ∀ k x, (0:ℝ) ≤ cosh (hW (c.W k) x) - 1 := fun k x => by
     have := one_le_cosh (hW (c.W k) x); linarith
   have hpos : ∀ k x, (0:ℝ) < 1 + (cosh (hW (c.W k) x) - 1) := fun k x => by have := hge k x; linarith
-  have hm := expectation_mono c (toV (y r)) (dens p r) (dens_nonneg p r) (dens_integrable hp r) hp1
+  have hm := expectation_mono_ae c (toV (y r)) (dens p r) (dens_nonneg p r) (dens_integrable hp r) hp1
     (homo_integral hbe hp c y r).1 (fun k => proj_sq_integrable hbe hp c y k r)
     (fun x k => dval coshM1Ops c x k / (1 + dval coshM1Ops c x k))
-    (fun x k => (cosh (hW (c.W k) x) - 1) * exp (coshLbLn (omegaDag be c p r k) (hW (c.W k) x)))
+    (fun x k => (cosh (hW (c.W k) x) - 1) * exp (coshLbLn (omegaStar coshM1Ops be c p y r k) (hW (c.W k) x)))
     (fun x k => log (1 + dval coshM1Ops c x k))
     (fun x k => coshK (omegaDag be c p r k) (hW (c.W k) x * hW (c.W k) x))
     (fun k => by
       simp_rw [hd]
       exact ((hcont k).div (continuous_const.add (hcont k)) fun x => (hpos k x).ne').aestronglyMeasurable)
     (fun x k => by
+      rw [hd]; exact div_nonneg (hge k x) (hpos k x).le)
+    (fun x k => by
       rw [hd, div_le_one (hpos k x)]; linarith)
-    (fun x k => mul_nonneg (hge k x) (exp_pos _).le)
-    (fun x k => by rw [hd]; exact coshLb_le _ _ (hω k))
+    (fun k => by
+      rcases omegaStar_coshM1_cases hbe hp c y r k (hω k) with h | h
+      · exact ae_of_all _ fun x => by rw [hd]; exact coshLb_mul_le _ _ _ (Or.inl h)
+      · filter_upwards [h] with x hx
+        rw [hd]; exact coshLb_mul_le _ _ _ (Or.inr hx))
     (fun k => (cosh_het_integral hbe hp c y k _ r).1)
     (fun k => by
       simp_rw [hd]
@@ -1575,20 +2146,49 @@ theorem C17_lower_bound_coshM1' (c : HeteroB Dy Dx Da Dk ℝ) (hc : HeteroOK c) 
       ∫ x, (c.conditionOnX coshM1Ops be (tab fun _ : Fin 1 => ofV x)).evalLn 0 (y r) * dens p r x :=
   C17_lower_bound_coshM1_model hbe hp c hc hdec y r hp1 fun k => omegaDag_ne_zero hbe hp c r k hp1 (hW0 k)
 
+/-- **`ω*` at zero input weights (exp class)** (loop invariant): `ω†= |w0_k|` is a fixed point of the
+iteration, so `ω*_k² = w0_k²`, unless the projected residual of the unit vanishes almost everywhere -/
+theorem omegaStar_exp_zero_weights (c : HeteroB Dy Dx Da Dk ℝ) (y : Arr R (Vec Dy ℝ)) (r : Fin R)
+    (k : Fin Dk) (hp1 : ∫ x, dens p r x = 1) (hw : ∀ j, wTail (c.W k) j = 0) :
+    omegaStar expOps be c p y r k ^ 2 = wHead (c.W k) ^ 2 ∨ ∀ᵐ x, proj c (toV (y r)) x k = 0 :=
+  getOmegaStar_invariant expOps be c p y (c.W k) (tab fun i => (mmul (c.Lambda 0) c.Ak) i k)
+    (fun ω => ω r ^ 2 = wHead (c.W k) ^ 2 ∨ ∀ᵐ x, proj c (toV (y r)) x k = 0)
+    (Or.inl (omegaDag_sq_of_zero_weights hbe hp c r k hp1 hw))
+    (fun ω _ => exp_update_zero_weights hbe hp c y k ω r hw)
+
+/-- **`ω*` at zero input weights (cosh−1 class)** (loop invariant) -/
+theorem omegaStar_coshM1_zero_weights (c : HeteroB Dy Dx Da Dk ℝ) (y : Arr R (Vec Dy ℝ)) (r : Fin R)
+    (k : Fin Dk) (hp1 : ∫ x, dens p r x = 1) (hw : ∀ j, wTail (c.W k) j = 0) :
+    omegaStar coshM1Ops be c p y r k ^ 2 = wHead (c.W k) ^ 2
+      ∨ ∀ᵐ x, (Real.cosh (wHead (c.W k)) - 1) * proj c (toV (y r)) x k ^ 2 = 0 :=
+  getOmegaStar_invariant coshM1Ops be c p y (c.W k) (tab fun i => (mmul (c.Lambda 0) c.Ak) i k)
+    (fun ω => ω r ^ 2 = wHead (c.W k) ^ 2
+      ∨ ∀ᵐ x, (Real.cosh (wHead (c.W k)) - 1) * proj c (toV (y r)) x k ^ 2 = 0)
+    (Or.inl (omegaDag_sq_of_zero_weights hbe hp c r k hp1 hw))
+    (fun ω _ => cosh_update_zero_weights hbe hp c y k ω r hw)
+
 /-- **C17 (tight at zero weights, exp class, model level)**: with zero input weights the returned
 value EQUALS the expectation of the log-density built from the returned precision and
-log-determinant (real-number model; for `w0 = 0` the floating-point code divides by zero). -/
+log-determinant (real-number model; for `w0 = 0` the floating-point code divides by zero).
+`ω† = |w0|` is the tangent point and a fixed point of the iteration for `ω*`. -/
 theorem C17_tight_at_zero_weights_exp_model (c : HeteroB Dy Dx Da Dk ℝ) (y : Arr R (Vec Dy ℝ)) (r : Fin R)
     (hp1 : ∫ x, dens p r x = 1) (hw : ∀ k j, wTail (c.W k) j = 0) :
     c.integrateLogConditionalY expOps be p y r =
       ∫ x, normalLn (toM (c.M 0) *ᵥ x + toV (c.b 0)) (precAt c (dval expOps c x))
         (lnDetAt c (dval expOps c x)) (toV (y r)) * dens p r x := by
   rw [(C17_exp_value_eq_integral hbe hp c y r hp1).2]
-  congr 1
-  funext x
-  rw [C17_tight_at_zero_weights_exp c (toV (y r)) _ _ hw
-    (fun k => omegaDag_sq_of_zero_weights hbe hp c r k hp1 (hw k))
-    (fun k => omegaDag_sq_of_zero_weights hbe hp c r k hp1 (hw k)) x]
+  refine integral_congr_ae ?_
+  have hae : ∀ᵐ x, ∀ k, omegaStar expOps be c p y r k ^ 2 = wHead (c.W k) ^ 2
+      ∨ proj c (toV (y r)) x k = 0 := by
+    rw [ae_all_iff]
+    intro k
+    rcases omegaStar_exp_zero_weights hbe hp c y r k hp1 (hw k) with h | h
+    · exact ae_of_all _ fun x => Or.inl h
+    · filter_upwards [h] with x hx
+      exact Or.inr hx
+  filter_upwards [hae] with x hx
+  rw [C17_tight_at_zero_weights_exp_or c (toV (y r)) _ _ hw x hx
+    (fun k => omegaDag_sq_of_zero_weights hbe hp c r k hp1 (hw k))]
 
 /-- **C17 (tight at zero weights, cosh−1 class, model level)** -/
 theorem C17_tight_at_zero_weights_coshM1_model (c : HeteroB Dy Dx Da Dk ℝ) (y : Arr R (Vec Dy ℝ))
@@ -1597,11 +2197,18 @@ theorem C17_tight_at_zero_weights_coshM1_model (c : HeteroB Dy Dx Da Dk ℝ) (y 
       ∫ x, normalLn (toM (c.M 0) *ᵥ x + toV (c.b 0)) (precAt c (dval coshM1Ops c x))
         (lnDetAt c (dval coshM1Ops c x)) (toV (y r)) * dens p r x := by
   rw [(C17_coshM1_value_eq_integral hbe hp c y r hp1).2]
-  congr 1
-  funext x
-  rw [C17_tight_at_zero_weights_coshM1 c (toV (y r)) _ _ hw
-    (fun k => omegaDag_sq_of_zero_weights hbe hp c r k hp1 (hw k))
-    (fun k => omegaDag_sq_of_zero_weights hbe hp c r k hp1 (hw k)) x]
+  refine integral_congr_ae ?_
+  have hae : ∀ᵐ x, ∀ k, omegaStar coshM1Ops be c p y r k ^ 2 = wHead (c.W k) ^ 2
+      ∨ (Real.cosh (wHead (c.W k)) - 1) * proj c (toV (y r)) x k ^ 2 = 0 := by
+    rw [ae_all_iff]
+    intro k
+    rcases omegaStar_coshM1_zero_weights hbe hp c y r k hp1 (hw k) with h | h
+    · exact ae_of_all _ fun x => Or.inl h
+    · filter_upwards [h] with x hx
+      exact Or.inr hx
+  filter_upwards [hae] with x hx
+  rw [C17_tight_at_zero_weights_coshM1_or c (toV (y r)) _ _ hw x hx
+    (fun k => omegaDag_sq_of_zero_weights hbe hp c r k hp1 (hw k))]
 
 /-- in the decoupled case the right-hand side is the true `E[ln p(y|x)]` -/
 theorem C17_tight_at_zero_weights (c : HeteroB Dy Dx Da Dk ℝ) (hc : HeteroOK c) (hdec : Decoupled c)
@@ -1684,4 +2291,11 @@ end GT.Props.C17
 #print axioms GT.Props.C17.C17_lower_bound_exp'
 #print axioms GT.Props.C17.C17_lower_bound_coshM1'
 #print axioms GT.Props.C17.C17_tight_at_zero_weights
-#print axioms GT.Props.C17.baseGetOmegaStar_eq
+#print axioms GT.Props.C17.omegaWhile_invariant
+#print axioms GT.Props.C17.baseGetOmegaStar_first_step
+#print axioms GT.Props.C17.omegaStar_exp_cases
+#print axioms GT.Props.C17.omegaStar_coshM1_cases
+#print axioms GT.Props.C17.omegaStar_exp_zero_weights
+#print axioms GT.Props.C17.omegaStar_coshM1_zero_weights
+#print axioms GT.Props.C17.C17_tight_at_zero_weights_exp_model
+#print axioms GT.Props.C17.C17_tight_at_zero_weights_coshM1_model
